@@ -707,6 +707,43 @@ func genRetriedFlows(r *rng, thorough bool, emit func(FlowScenario)) {
 	}
 }
 
+// a NodeBuilder and the *CustomNode it wraps are two different nodes: a connection made from the one is not a connection of the
+// other. The wrapped node is connected (a decoy) but never reached.
+func genBuilderAlias(r *rng, emit func(FlowScenario)) {
+	t := &tokGen{r: r}
+	for _, k := range funcStyleKinds() {
+		if k.PostS == "absent" {
+			continue
+		}
+		for variant := 0; variant < 3; variant++ {
+			x := k
+			x.Budget = 1 + r.intn(2)
+			y := x
+			y.Impl, y.Of = "inner", 0
+			a := LeafCfg{Retryable: false, Budget: 1, Fb: "absent", PrepS: "direct", ExecS: "direct", PostS: "direct"}
+			b := a
+			var ops []Conn
+			switch variant {
+			case 0: // only the wrapped node has the edge: the flow ends after the builder node
+				ops = []Conn{{Src: 1, Action: "go", Dst: ip(2)}}
+			case 1: // both have one, to different targets, the wrapped node's made later
+				ops = []Conn{{Src: 0, Action: "go", Dst: ip(2)}, {Src: 1, Action: "go", Dst: ip(3)}}
+			default: // the wrapped node's later connection ends the flow; the builder's does not
+				ops = []Conn{{Src: 0, Action: "go", Dst: ip(2)}, {Src: 1, Action: "go", Dst: nil}}
+			}
+			t.next, t.errN = r.intn(30), r.intn(20)
+			s0 := t.leafScript(0, 0, true, 1, x.Budget+1, true, "=go")
+			s2 := t.leafScript(2, 0, true, 1, 2, true, "=done")
+			s3 := t.leafScript(3, 0, true, 1, 2, true, "=other")
+			emit(FlowScenario{Kind: "canceled", Ctx0: "live",
+				Nodes: []NodeDef{{ID: 0, Leaf: &x}, {ID: 1, Leaf: &y}, {ID: 2, Leaf: &a}, {ID: 3, Leaf: &b},
+					{ID: 4, Flow: &FlowDef{Start: ip(0), Ops: ops}}},
+				LeafScripts: []LeafScript{s0, s2, s3}, BatchScripts: []BatchScript{},
+				Steps: []Step{{Run: ip(4)}}})
+		}
+	}
+}
+
 // nodes of unusual Go kinds: a struct used BY VALUE (not nillable), a nil pointer whose methods never touch the receiver, a pointer to
 // a zero-size struct: one lifecycle each, like any other node — alone and as a step of a flow
 func genOddNodeKinds(r *rng, emit func(FlowScenario)) {
